@@ -48,6 +48,8 @@ fn classify(msg: &str) -> &'static str {
         "nonterm"
     } else if msg.contains("failed to parse") {
         "parse"
+    } else if msg.contains("failed to resolve") {
+        "unresolved"
     } else {
         "other"
     }
